@@ -30,6 +30,10 @@ extern int mpt_parse_format_pre(const MPT_STRUCT(parser_format) *fmt, MPT_STRUCT
 	}
 	if (curr == fmt->sstart) {
 		parse->curr = MPT_PARSEFLAG(Section);
+		/* path data may not exist for first element */
+		if (mpt_path_addchar(path, curr) < 0) {
+			return MPT_ERROR(MissingBuffer);
+		}
 		if (mpt_parse_ncheck(path->base + path->off + path->len, parse->valid, parse->name.sect) < 0) {
 			return MPT_ERROR(BadType);
 		}
